@@ -132,7 +132,9 @@ impl BuildOptimiser {
         };
 
         MCOptimiser {
-            kt_start: self.kt_start,
+            // A temperature of negative zero is a temperature of zero, dividing by it gives
+            // infinities of the opposite sign, with which every move is accepted.
+            kt_start: if self.kt_start == 0. { 0. } else { self.kt_start },
             kt_ratio,
             max_step_size: self.max_step_size,
             steps: self.steps,
